@@ -277,6 +277,14 @@ func (c *Ctx) Finish(seed int) int {
 		evdir = c.OutDir
 	}
 	os.MkdirAll(filepath.Join(evdir, "replay"), 0o755)
+	// full obligation listing (every rule instance decided in this run), for review
+	os.MkdirAll(filepath.Join(evdir, "obligations"), 0o755)
+	var ob strings.Builder
+	for _, o := range c.Obls {
+		fmt.Fprintf(&ob, "%s\t%s\t%s\t%s\t%s\n", o.Status, o.Rule, o.Instance, o.Site, strings.ReplaceAll(o.Detail, "\n", " "))
+	}
+	os.WriteFile(filepath.Join(evdir, "obligations", c.Prop+".tsv"), []byte(ob.String()), 0o644)
+	cov["obligation_listing"] = "evidence/obligations/" + c.Prop + ".tsv (status, rule, instance, site, detail for every obligation)"
 	b, _ := json.MarshalIndent(ev, "", " ")
 	if err := os.WriteFile(filepath.Join(evdir, c.Prop+".json"), b, 0o644); err != nil {
 		fmt.Fprintln(os.Stderr, "cannot write evidence:", err)
